@@ -3,6 +3,7 @@ CONSTANTS
   Callers = {"k1", "k2", "k3", "k4", "k5"}
   Behaviour <- TrBehaviour
   Delay <- TrDelay
+  Lag <- TrLag
   Grace = 2000
   CloseBlock = 2000
   FrozenCloseOk = TRUE
